@@ -392,15 +392,16 @@ class MHLHistory:
 
         # TODO: validate new hash entries
         for media_hash in hash_list.media_hashes:
+            # a hash in a new format is accepted if a hash in any already recorded format has been verified in
+            # the same record (the format of the original hash may not have been requested again) and none failed
+            verified_entries = [entry for entry in media_hash.hash_entries if entry.action == "verified"]
+            failed_entries = [entry for entry in media_hash.hash_entries if entry.action == "failed"]
             for hash_entry in media_hash.hash_entries:
                 if hash_entry.action == "new":
-                    # TODO: do need to use the original hash here or can we also use another hash
-                    original_hash_entry = self.find_original_hash_entry_for_path(media_hash.path)
-                    required_hash_entry = media_hash.find_hash_entry_for_format(original_hash_entry.hash_format)
-                    if required_hash_entry is None:
+                    if len(verified_entries) == 0:
                         raise AssertionError("no hash entry found for new hash", hash_entry)
-                    if required_hash_entry.action != "verified":
-                        raise AssertionError("hash entry for new hash not verified", hash_entry, required_hash_entry)
+                    if len(failed_entries) > 0:
+                        raise AssertionError("hash entry for new hash not verified", hash_entry, failed_entries[0])
                     hash_entry.action = "verified"
         return True
 
